@@ -27,6 +27,10 @@ open RichModel RichModel.Proto RichModel.Frames
 def cw : Char → Nat := charWidthT Gen.cellWidths
 
 abbrev Seg := Segment Nat
+
+/-- a title is in the modelled domain when, line feeds replaced by blanks (as the code does), all its characters are simple -/
+def titleOk (t : List Char) : Bool := (t.map (fun c => if c == '\n' then ' ' else c)).all simpleChar
+
 abbrev Ch := Child Nat
 
 /-! ### decoding -/
@@ -172,7 +176,7 @@ partial def toChild (c : Ctx) : Expr → Option Ch
     match unpackPad o.padding with
     | .error _ => none
     | .ok _ =>
-      if !(o.title.all simpleChar) then none else
+      if !(titleOk o.title) then none else
       if (o.width.getD 0) < 0 then none else
       some (asChild
         (fun w => match panelConsole cw c.env c.v o ch w with
@@ -194,9 +198,9 @@ partial def toChild (c : Ctx) : Expr → Option Ch
     match ruleInit cw o with
     | .error _ => none
     | .ok o =>
-      if !(o.title.all simpleChar && o.characters.all simpleChar) then none else
+      if !(titleOk o.title && o.characters.all simpleChar) then none else
       some (asChild
-        (fun w => match ruleConsole cw c.env o w with
+        (fun w => match ruleConsole cw c.env c.v o w with
           | some s => s
           | none => [poisonSeg c.poison])
         (fun w => ⟨0, w⟩))   -- Rule has no __rich_measure__: Measurement.get gives (0, max_width)
@@ -221,7 +225,7 @@ def renderTop (c : Ctx) (e : Expr) (w : Int) : Res :=
     | none => .unmodelled
     | some ch =>
       if w < 1 then .ok [] else
-      if !(o.title.all simpleChar) || (o.width.getD 0) < 0 then .unmodelled else
+      if !(titleOk o.title) || (o.width.getD 0) < 0 then .unmodelled else
       match panelConsole cw c.env c.v o ch w with
       | .error er => .err er
       | .ok none => .unmodelled
@@ -231,8 +235,8 @@ def renderTop (c : Ctx) (e : Expr) (w : Int) : Res :=
     | .error er => .err er
     | .ok o =>
       if w < 1 then .ok [] else
-      if !(o.title.all simpleChar && o.characters.all simpleChar) then .unmodelled else
-      match ruleConsole cw c.env o w with
+      if !(titleOk o.title && o.characters.all simpleChar) then .unmodelled else
+      match ruleConsole cw c.env c.v o w with
       | none => .unmodelled
       | some s => .ok s
   | e =>
@@ -267,7 +271,7 @@ def answerQuery (env : Env) (l1 l2 : Array Ch) (q : String) : String :=
     match parseExpr (ex.splitOn ";") with
     | some (e, []) =>
       let run (k : Nat) : String :=
-        let c : Ctx := { env := env, v := { zeroWidthChild := decBool v }, leaves := (if k == 1 then l1 else l2), poison := k }
+        let c : Ctx := { env := env, v := { zeroWidthChild := decNat v % 2 == 1, ruleRightRepeat := decNat v / 2 % 2 == 1 }, leaves := (if k == 1 then l1 else l2), poison := k }
         if kind == "R" then encRes (renderTop c e (decInt w))
         else match measureTop c e (decInt w) with
           | some m => s!"m:{m.minimum},{m.maximum}"
